@@ -13,7 +13,7 @@ META = {}
 
 for _ch in (1, 2):
   for _n, _d, _f in (('celt_enc_reset', [], 'opus_custom_encoder_ctl'), ('celt_dec_reset', ['-DVERIF_CELT_DEC=1'], 'opus_custom_decoder_ctl')):
-    GROUPS.append(dict(name='%s_c%d' % (_n, _ch), cls='F', tu='C12_celt_reset.c', entry='h_' + _n, dfcc=False, canary='real', expect_canaries=1, unwind=46, timeout=900, defines=['-U__SSE__', '-DVERIF_CH=%d' % _ch] + _d, tier='thorough' if (_d and _ch == 2) else 'quick',
+    GROUPS.append(dict(name='%s_c%d' % (_n, _ch), cls='F', tu='C12_celt_reset.c', entry='h_' + _n, dfcc=False, canary='real', expect_canaries=1, unwind=46, timeout=1500, mem_gb=24, defines=['-U__SSE__', '-DVERIF_CH=%d' % _ch] + _d, tier='thorough' if (_d and _ch == 2) else 'quick',
         functions=[_f, _f.replace('_ctl', '_get_size')], trusted=['memset is a recording stub (destination, value, length)'],
         bounds='static 48 kHz mode, %d channel(s), any last-coded channel count; every other byte of the state arbitrary' % _ch,
         what='OPUS_RESET_STATE of the MDCT-layer %s: clears exactly from the reset marker to the end of the state of an object with the created channel count, keeps the configuration, re-establishes the defaults of init' % ('encoder' if not _d else 'decoder')))
